@@ -416,12 +416,17 @@ def gen_callout(rng, u, must_fru=True):
                    sn=fieldtext(rng, u, 12, alphabet=ALNUM))
     pce = None
     if rng.random() < 0.3:
-        nlen = rng.choice([1, 3, 4, 7, 8, 16, 31, 40])
+        # 0: an empty name in the form the encoders produce it - the terminator padded to four bytes (a PCE identity of
+        # exactly its 24 fixed bytes has no name field at all; the pinned tree rejects it through get_mem(0), and it is not
+        # generated: see ASSUMPTIONS of C03)
+        nlen = rng.choice([1, 3, 4, 7, 8, 16, 31, 40, 0])
         pce = dict(mt=fieldtext(rng, u, 8, alphabet=ALNUM + "-"), sn=fieldtext(rng, u, 12, alphabet=ALNUM),
-                   name=clean_edges(u.token(min(nlen, 5)) + rtext(rng, max(0, nlen - 5), ALNUM + " _-", 0)),
+                   name=clean_edges(u.token(min(nlen, 5)) + rtext(rng, max(0, nlen - 5), ALNUM + " _-", 0)) if nlen else "",
                    flags=rng.randrange(256))
         if rng.random() < 0.1:
             pce["mt"] = ""
+        if not nlen:
+            pce["namepad"] = 4
     mru = None
     if rng.random() < 0.3:
         n = rng.choice([0, 1, 2, 3, 15, rng.randrange(16)])
